@@ -13,6 +13,7 @@ import (
 	"flag"
 	"fmt"
 	"io"
+	"math"
 	"os"
 	"sort"
 	"strings"
@@ -24,6 +25,7 @@ import (
 	"github.com/openconfig/gnmi/errlist"
 	"github.com/openconfig/gnmi/zz_verif/vh"
 	"google.golang.org/protobuf/proto"
+	"google.golang.org/protobuf/types/known/anypb"
 
 	pb "github.com/openconfig/gnmi/proto/gnmi"
 )
@@ -45,12 +47,16 @@ type PathJ struct {
 	Element []string `json:"el,omitempty"`
 }
 
-// ValJ: K is one of str int uint bool bytes json none.
+// ValJ: K is one of str int uint bool bytes json none float double decimal
+// leaflist any jsonietf ascii protobytes.  Floats are IEEE-754 bit patterns.
 type ValJ struct {
-	K string `json:"k"`
-	S string `json:"s,omitempty"`
-	I int64  `json:"i,omitempty"`
-	B bool   `json:"b,omitempty"`
+	K    string `json:"k"`
+	S    string `json:"s,omitempty"`
+	I    int64  `json:"i,omitempty"`
+	B    bool   `json:"b,omitempty"`
+	Bits uint64 `json:"bits,omitempty"`
+	Prec uint32 `json:"prec,omitempty"`
+	L    []ValJ `json:"l,omitempty"`
 }
 
 type UpdJ struct {
@@ -149,6 +155,26 @@ func mkVal(v *ValJ) *pb.TypedValue {
 		return &pb.TypedValue{Value: &pb.TypedValue_BytesVal{BytesVal: []byte(v.S)}}
 	case "json":
 		return &pb.TypedValue{Value: &pb.TypedValue_JsonVal{JsonVal: []byte(v.S)}}
+	case "jsonietf":
+		return &pb.TypedValue{Value: &pb.TypedValue_JsonIetfVal{JsonIetfVal: []byte(v.S)}}
+	case "ascii":
+		return &pb.TypedValue{Value: &pb.TypedValue_AsciiVal{AsciiVal: v.S}}
+	case "protobytes":
+		return &pb.TypedValue{Value: &pb.TypedValue_ProtoBytes{ProtoBytes: []byte(v.S)}}
+	case "any":
+		return &pb.TypedValue{Value: &pb.TypedValue_AnyVal{AnyVal: &anypb.Any{}}}
+	case "float":
+		return &pb.TypedValue{Value: &pb.TypedValue_FloatVal{FloatVal: math.Float32frombits(uint32(v.Bits))}}
+	case "double":
+		return &pb.TypedValue{Value: &pb.TypedValue_DoubleVal{DoubleVal: math.Float64frombits(v.Bits)}}
+	case "decimal":
+		return &pb.TypedValue{Value: &pb.TypedValue_DecimalVal{DecimalVal: &pb.Decimal64{Digits: v.I, Precision: v.Prec}}}
+	case "leaflist":
+		sa := &pb.ScalarArray{}
+		for i := range v.L {
+			sa.Element = append(sa.Element, mkVal(&v.L[i]))
+		}
+		return &pb.TypedValue{Value: &pb.TypedValue_LeaflistVal{LeaflistVal: sa}}
 	}
 	return &pb.TypedValue{}
 }
@@ -222,6 +248,30 @@ func projVal(v *pb.TypedValue) *ValJ {
 		return &ValJ{K: "bytes", S: string(x.BytesVal)}
 	case *pb.TypedValue_JsonVal:
 		return &ValJ{K: "json", S: string(x.JsonVal)}
+	case *pb.TypedValue_JsonIetfVal:
+		return &ValJ{K: "jsonietf", S: string(x.JsonIetfVal)}
+	case *pb.TypedValue_AsciiVal:
+		return &ValJ{K: "ascii", S: x.AsciiVal}
+	case *pb.TypedValue_ProtoBytes:
+		return &ValJ{K: "protobytes", S: string(x.ProtoBytes)}
+	case *pb.TypedValue_AnyVal:
+		return &ValJ{K: "any"}
+	case *pb.TypedValue_FloatVal:
+		return &ValJ{K: "float", Bits: uint64(math.Float32bits(x.FloatVal))}
+	case *pb.TypedValue_DoubleVal:
+		return &ValJ{K: "double", Bits: math.Float64bits(x.DoubleVal)}
+	case *pb.TypedValue_DecimalVal:
+		return &ValJ{K: "decimal", I: x.DecimalVal.GetDigits(), Prec: x.DecimalVal.GetPrecision()}
+	case *pb.TypedValue_LeaflistVal:
+		out := &ValJ{K: "leaflist"}
+		for _, e := range x.LeaflistVal.GetElement() {
+			if pv := projVal(e); pv != nil {
+				out.L = append(out.L, *pv)
+			} else {
+				out.L = append(out.L, ValJ{K: "nil"})
+			}
+		}
+		return out
 	case nil:
 		return &ValJ{K: "none"}
 	}
@@ -505,25 +555,52 @@ func (t *termer) gpath(p *PathJ) string {
 	return t.intern("g", "gpath", fmt.Sprintf("GPath %s %s %s %s", t.str(p.Target), t.str(p.Origin), vh.List(els), vh.List(el)))
 }
 
+// tv renders a value as a term of Value.ValueModel.tv.
+func (t *termer) tv(v *ValJ) string {
+	switch v.K {
+	case "str":
+		return "(TVString " + t.str(v.S) + ")"
+	case "int":
+		return "(TVInt " + vh.Z(v.I) + ")"
+	case "uint":
+		return fmt.Sprintf("(TVUint %d%%N)", uint64(v.I))
+	case "bool":
+		return "(TVBool " + vh.Bool(v.B) + ")"
+	case "bytes":
+		return "(TVBytes " + t.str(v.S) + ")"
+	case "json":
+		return "(TVJson " + t.str(v.S) + ")"
+	case "jsonietf":
+		return "(TVJsonIetf " + t.str(v.S) + ")"
+	case "ascii":
+		return "(TVAscii " + t.str(v.S) + ")"
+	case "protobytes":
+		return "(TVProtoBytes " + t.str(v.S) + ")"
+	case "any":
+		return "TVAny"
+	case "float":
+		return fmt.Sprintf("(TVFloat %d%%N)", v.Bits)
+	case "double":
+		return fmt.Sprintf("(TVDouble %d%%N)", v.Bits)
+	case "decimal":
+		return fmt.Sprintf("(TVDecimal %s %d%%N)", vh.Z(v.I), v.Prec)
+	case "leaflist":
+		el := make([]string, len(v.L))
+		for i := range v.L {
+			el[i] = t.tv(&v.L[i])
+		}
+		return "(TVLeaflist " + vh.List(el) + ")"
+	case "nil":
+		return "TVnil"
+	}
+	return "TVunset"
+}
+
 func (t *termer) val(v *ValJ) string {
 	if v == nil {
 		return "None"
 	}
-	switch v.K {
-	case "str":
-		return "(Some (TStr " + t.str(v.S) + "))"
-	case "int":
-		return "(Some (TInt " + vh.Z(v.I) + "))"
-	case "uint":
-		return "(Some (TUint " + vh.Z(v.I) + "))"
-	case "bool":
-		return "(Some (TBool " + vh.Bool(v.B) + "))"
-	case "bytes":
-		return "(Some (TBytes " + t.str(v.S) + "))"
-	case "json":
-		return "(Some (TJson " + t.str(v.S) + "))"
-	}
-	return "(Some TNone)"
+	return "(Some " + t.tv(v) + ")"
 }
 
 // noti returns a local identifier bound (by a let in the case term) to the
@@ -774,7 +851,7 @@ func (e *emitter) flush() {
 	if e.cf.Len() == 0 {
 		return
 	}
-	if err := e.cf.write(e.dir, e.shard, "CTree.CTreeModel Path.PathModel Cache.CacheModel Cache.C02Check "+e.checkLib); err != nil {
+	if err := e.cf.write(e.dir, e.shard, "CTree.CTreeModel Path.PathModel Value.ValueModel Cache.CacheModel Cache.C02Check "+e.checkLib); err != nil {
 		vh.Die("write: %v", err)
 	}
 	e.shard++
